@@ -1,4 +1,6 @@
 fn main() {
+    // Verification hooks are guarded by `--cfg litep2p_verif` (off by default).
+    println!("cargo::rustc-check-cfg=cfg(litep2p_verif)");
     let mut config = prost_build::Config::new();
     // Configure Prost to add #[derive(Serialize, Deserialize)] to all generated structs
     config.type_attribute(
